@@ -1218,7 +1218,7 @@ pub fn well_behaved(rng: &mut Rng, opts: GenOpts) -> AST {
 // ---------------------------------------------------------------------------------------------
 // Fault injection (C10): insert one faulting statement at a statement position.
 
-pub const FAULT_CLASSES: [&str; 36] = [
+pub const FAULT_CLASSES: [&str; 38] = [
     "unknown-variable-read",
     "unknown-variable-write",
     "unknown-function",
@@ -1255,6 +1255,8 @@ pub const FAULT_CLASSES: [&str; 36] = [
     "size-object",
     "min-div-minus-one",
     "bool-operator-int-argument",
+    "object-duplicate-field",
+    "object-duplicate-method",
 ];
 
 pub fn fault_statement(class: &str, tag: usize) -> Vec<AST> {
@@ -1310,6 +1312,19 @@ pub fn fault_statement(class: &str, tag: usize) -> Vec<AST> {
         "size-object" => AST::array(obj(), AST::Integer(0)),
         "min-div-minus-one" => op("/", AST::Integer(i32::MIN), op("-", AST::Integer(0), AST::Integer(1))),
         "bool-operator-int-argument" => op("|", AST::Boolean(false), AST::Integer(1)),
+        // the initializers run (and print), then creation fails: nothing is allocated
+        "object-duplicate-field" => AST::object(
+            AST::Null,
+            vec![
+                AST::variable(id("dup"), AST::print(format!("<init1 {}>", tag), vec![])),
+                AST::variable(id("other"), AST::Integer(1)),
+                AST::variable(id("dup"), AST::print(format!("<init2 {}>", tag), vec![])),
+            ],
+        ),
+        "object-duplicate-method" => AST::object(
+            AST::array(AST::Integer(1), AST::Integer(0)),
+            vec![AST::function(id("dm"), vec![], AST::Integer(1)), AST::variable(id("f"), AST::Integer(2)), AST::function(id("dm"), vec![id("a")], AST::Integer(2))],
+        ),
         _ => AST::Null,
     };
     vec![pre, f]
